@@ -156,6 +156,14 @@ func (t *Thing) useConf() int { return t.conf }
 // SHARED control: ShallowCopy shares the map M, which put() stores through
 func (t *Thing) put(k uint64) { t.M[k] = k }
 
+// IMMUT control: an "evaluator" that scales its first operand in place
+type fixEvaluator struct{ r *ring.Ring }
+
+func (e fixEvaluator) AddScaled(op0, op1, opOut *rlwe.Ciphertext) {
+	e.r.MulScalar(op0.Value[0], 3, op0.Value[0])
+	e.r.Add(op0.Value[0], op1.Value[0], opOut.Value[0])
+}
+
 // LANE control: lane 2 reads x[3]
 func laneBad(x, y, z *[8]uint64, q uint64) {
 	z[0] = x[0] + y[0] + q
